@@ -457,4 +457,214 @@ theorem updateUserEnergy_totalRewards {g g1 : Weekly.St} {W : Nat} {cur : Energy
     (Weekly.reallocate_spec hre).2.2.1.totalRewards]
   exact performWeeklyUpdate_totalRewards ha1 w hw
 
+
+/-! ### the endpoint helper `claimBoostedYields` -/
+
+/-- what a successful `claimBoostedYields` does to the boosted sub-state, field by field -/
+structure BoostEff (s s' : St) (r : Nat) : Prop where
+  struct : ∃ w' b', s' = { s with w := w', b := b' }
+  noCfg : s.b.cfg = none → r = 0 ∧ s' = s
+  cfg : s'.b.cfg = s.b.cfg ∨ ∃ cfg W mem, s.b.cfg = some cfg ∧ s.week = some W ∧
+    cfg.update W none = some mem ∧ s'.b.cfg = some mem
+  cutW : s'.b.cutW = s.b.cutW
+  collW : s'.b.collW = s.b.collW
+  fsw : s'.b.farmSupplyWeek = s.b.farmSupplyWeek
+  mono : ∀ w, s.b.paidW w ≤ s'.b.paidW w
+  /-- only the last four completed weeks can change -/
+  outside : ∀ W, s.week = some W → ∀ w, (w + 4 < W ∨ W ≤ w) →
+    s'.b.accum w = s.b.accum w ∧ s'.b.remaining w = s.b.remaining w ∧ s'.b.paidW w = s.b.paidW w
+  /-- the result is exactly the growth of the paid ghosts of the last four weeks -/
+  result : ∀ W, s.week = some W →
+    r = ((List.range 4).map fun i => s'.b.paidW (W - 4 + i) - s.b.paidW (W - 4 + i)).sum
+  pool : (∀ W w, s.week = some W → W ≤ w + 4 → w < W → RemOk s.w s.b w) → PoolRel s.b s'.b
+  remOk : ∀ W w, s.week = some W → w + 5 ≠ W → RemOk s.w s.b w → RemOk s'.w s'.b w
+
+theorem claimBoostedYields_spec {s s' : St} {u r : Nat} (h : claimBoostedYields s u = some (s', r)) :
+    BoostEff s s' r := by
+  have hstruct := claimBoostedYields_struct h
+  unfold claimBoostedYields at h
+  split at h
+  · rename_i hc
+    simp only [Option.some.injEq, Prod.mk.injEq] at h
+    obtain ⟨rfl, rfl⟩ := h
+    refine ⟨hstruct, fun _ => ⟨rfl, rfl⟩, Or.inl rfl, rfl, rfl, rfl, fun _ => Nat.le_refl _,
+      fun _ _ _ _ => ⟨rfl, rfl, rfl⟩,
+      fun _ _ => (sum_map_zero (fun _ _ => Nat.sub_self _)).symm, fun _ => PoolRel.refl _,
+      fun _ _ _ _ hh => hh⟩
+  · rename_i cfg hc
+    simp only [Option.bind_eq_bind, Option.bind_eq_some_iff, Option.pure_def, Option.some.injEq,
+      Prod.mk.injEq] at h
+    obtain ⟨W, hW, mem, hmem, ⟨g', c', rl⟩, hx, hs', rfl⟩ := h
+    obtain ⟨g1, a, h1, hle, ha, hg', hc', hrl⟩ := Weekly.claimMulti_spec hx
+    have hb : s'.b = a.c := by rw [← hs', ← hc']
+    have hw : s'.w = Weekly.setProgress a.g u (Weekly.newOf (Energy.queried (s.energy u) s.epoch) W) := by
+      rw [← hs', ← hg']
+    have hwt : s'.w.totalRewards = a.g.totalRewards := by rw [hw]; rfl
+    have le := claimLoop_pool _ ha
+    obtain ⟨hwin, hlen, _⟩ := Weekly.loop_window _ W hle
+    generalize Weekly.loopLen (Weekly.startProgress (s.w.progress u) (Energy.queried (s.energy u) s.epoch) W) W = n at *
+    generalize hst : (Weekly.loopStart (Weekly.startProgress (s.w.progress u) (Energy.queried (s.energy u) s.epoch) W) W) = p1 at *
+    have hout := le.outside
+    have hrew := le.rewards
+    have hpool := le.pool
+    have hrem := le.remOk
+    simp only at hout hrew hpool hrem
+    refine ⟨hstruct, fun hn => by rw [hc] at hn; simp at hn, ?_, by rw [hb]; exact le.cutW,
+      by rw [hb]; exact le.collW, by rw [hb]; exact le.fsw, by rw [hb]; exact le.mono, ?_, ?_, ?_, ?_⟩
+    · rcases le.cfg with hh | hh
+      · exact Or.inl (by rw [hb]; exact hh)
+      · exact Or.inr ⟨cfg, W, mem, hc, hW, hmem, by rw [hb]; exact hh⟩
+    · intro W' hW' w hw'
+      rw [hW] at hW'; simp only [Option.some.injEq] at hW'; subst hW'
+      rw [hb]
+      exact (hout w (by omega)).2
+    · intro W' hW'
+      rw [hW] at hW'; simp only [Option.some.injEq] at hW'; subst hW'
+      rw [hrl, hrew, sumRewards_nil, Nat.zero_add, hb]
+      exact (sum_window (fun w => a.c.paidW w - s.b.paidW w) p1.week n (W - 4) 4
+        (fun w hw' => by rw [(hout w hw').2.2.2]; exact Nat.sub_self _) (by omega) (by omega)).symm
+    · intro hinv
+      rw [hb]
+      apply hpool
+      intro w hw1 hw2
+      have := hinv W w hW (by omega) (by omega)
+      unfold RemOk at this ⊢
+      rw [updateUserEnergy_totalRewards h1 w (by omega)]
+      exact this
+    · intro W' w hW' hw5 hok
+      rw [hW] at hW'; simp only [Option.some.injEq] at hW'; subst hW'
+      have hok1 : RemOk g1 s.b w := by
+        unfold RemOk at hok ⊢
+        rw [updateUserEnergy_totalRewards h1 w hw5]
+        exact hok
+      have := hrem w hok1
+      unfold RemOk at this ⊢
+      rw [hwt, hb]
+      exact this
+
+/-- the state invariant that makes every freeze conservative: a claimable or future week that is
+    not frozen yet has no remaining pool.  (Inductive: the weekly update only clears
+    `totalRewardsForWeek(W − 5)`, see `performWeeklyUpdate_totalRewards`.) -/
+def RemInv (s : St) : Prop := ∀ W w, s.week = some W → W ≤ w + 4 → RemOk s.w s.b w
+
+theorem claimBoostedYields_remInv {s s' : St} {u r : Nat}
+    (h : claimBoostedYields s u = some (s', r)) (hI : RemInv s) :
+    RemInv s' ∧ PoolRel s.b s'.b := by
+  have e := claimBoostedYields_spec h
+  refine ⟨?_, e.pool (fun W w hW h1 _ => hI W w hW h1)⟩
+  intro W w hW hw
+  obtain ⟨w', b', rfl⟩ := e.struct
+  have hW0 : s.week = some W := hW
+  exact e.remOk W w hW0 (by omega) (hI W w hW0 hw)
+
+/-! ### paid once (C11) -/
+
+/-- a `claim_multi` whose start progress is already at the current week walks no week: no
+    rewards, the contract state untouched — for ANY reward function -/
+theorem claimMulti_same_week {σ : Type} {rw : Weekly.RewardFn σ} {g g' : Weekly.St} {c c' : σ}
+    {u W : Nat} {cur : Energy} {r : List (Weekly.Tok × Nat)}
+    (h : Weekly.claimMulti rw g c u W cur = some (g', c', r))
+    (hp : ∀ p, g.progress u = some p → p.week = W) : r = [] ∧ c' = c := by
+  obtain ⟨g1, a, _, _, ha, _, hc', hr⟩ := Weekly.claimMulti_spec h
+  have hwk : (Weekly.startProgress (g.progress u) cur W).week = W := by
+    cases hq : g.progress u with
+    | none => rfl
+    | some p => exact hp p hq
+  have hlen : Weekly.loopLen (Weekly.startProgress (g.progress u) cur W) W = 0 := by
+    unfold Weekly.loopLen
+    rw [hwk, Nat.sub_self, Nat.zero_min]
+  rw [hlen] at ha
+  simp only [Weekly.claimLoop, Option.some.injEq] at ha
+  subst ha
+  exact ⟨hr, hc'⟩
+
+/-- after a `claim_multi` in week `W` the user's progress, if any, is at week `W` -/
+theorem claimMulti_progress_week {σ : Type} {rw : Weekly.RewardFn σ} (hrw : Weekly.RwFrame rw)
+    {g g' : Weekly.St} {c c' : σ} {u W : Nat} {cur : Energy} {r : List (Weekly.Tok × Nat)}
+    (h : Weekly.claimMulti rw g c u W cur = some (g', c', r)) :
+    ∀ p, g'.progress u = some p → p.week = W := by
+  intro p hp
+  rw [(Weekly.claimMulti_progress hrw h).1] at hp
+  unfold Weekly.newOf at hp
+  split at hp
+  · simp only [Option.some.injEq] at hp; subst hp; rfl
+  · simp at hp
+
+/-- **paid once**, on `claim_multi`: after a claim of `u` in week `W`, any further claim of `u`
+    in week `W` (whatever happened to the rest of the state, with any reward function and any
+    current energy) pays nothing and leaves the contract state alone -/
+theorem claimMulti_twice {σ : Type} {rw rw' : Weekly.RewardFn σ} (hrw : Weekly.RwFrame rw)
+    {g g1 g2 g3 : Weekly.St} {c c1 c2 c3 : σ} {u W : Nat} {cur cur' : Energy}
+    {r1 r2 : List (Weekly.Tok × Nat)}
+    (h1 : Weekly.claimMulti rw g c u W cur = some (g1, c1, r1))
+    (hg : g2.progress u = g1.progress u)
+    (h2 : Weekly.claimMulti rw' g2 c2 u W cur' = some (g3, c3, r2)) : r2 = [] ∧ c3 = c2 :=
+  claimMulti_same_week h2 (fun p hp => claimMulti_progress_week hrw h1 p (hg ▸ hp))
+
+/-- after a boosted claim (with a config) the user's progress, if any, is at the current week -/
+theorem claimBoostedYields_progress {s s' : St} {u r : Nat}
+    (h : claimBoostedYields s u = some (s', r)) (hc : s.b.cfg ≠ none) :
+    ∃ W, s.week = some W ∧ ∀ p, s'.w.progress u = some p → p.week = W := by
+  unfold claimBoostedYields at h
+  split at h
+  · rename_i hn; exact absurd hn hc
+  · simp only [Option.bind_eq_bind, Option.bind_eq_some_iff, Option.pure_def, Option.some.injEq,
+      Prod.mk.injEq] at h
+    obtain ⟨W, hW, mem, _, ⟨g', c', rl⟩, hx, hs', _⟩ := h
+    refine ⟨W, hW, ?_⟩
+    have : s'.w = g' := by rw [← hs']
+    rw [this]
+    exact claimMulti_progress_week (boostedRewards_frame _ _) hx
+
+/-- a boosted claim of a user whose progress is already at the current week pays nothing and
+    leaves the boosted sub-state alone -/
+theorem claimBoostedYields_same_week {s s' : St} {u r W : Nat}
+    (h : claimBoostedYields s u = some (s', r)) (hW : s.week = some W)
+    (hp : ∀ p, s.w.progress u = some p → p.week = W) : r = 0 ∧ s'.b = s.b := by
+  unfold claimBoostedYields at h
+  split at h
+  · simp only [Option.some.injEq, Prod.mk.injEq] at h
+    obtain ⟨rfl, rfl⟩ := h
+    exact ⟨rfl, rfl⟩
+  · simp only [Option.bind_eq_bind, Option.bind_eq_some_iff, Option.pure_def, Option.some.injEq,
+      Prod.mk.injEq] at h
+    obtain ⟨W', hW', mem, _, ⟨g', c', rl⟩, hx, hs', rfl⟩ := h
+    rw [hW] at hW'; simp only [Option.some.injEq] at hW'; subst hW'
+    obtain ⟨hr, hc'⟩ := claimMulti_same_week hx hp
+    refine ⟨by rw [hr]; rfl, ?_⟩
+    rw [← hs']
+    exact hc'
+
+/-- 6. **paid once** (C11): after a successful boosted claim of `u` (config present), any later
+    boosted claim of `u` in the same week — in any state `s2` that still has `u`'s progress entry
+    as the first claim left it — pays nothing and leaves the boosted sub-state alone -/
+theorem paid_once {s s1 s2 s3 : St} {u r1 r2 : Nat}
+    (h1 : claimBoostedYields s u = some (s1, r1)) (hc : s.b.cfg ≠ none)
+    (hprog : s2.w.progress u = s1.w.progress u) (hweek : s2.week = s.week)
+    (h2 : claimBoostedYields s2 u = some (s3, r2)) : r2 = 0 ∧ s3.b = s2.b := by
+  obtain ⟨W, hW, hp⟩ := claimBoostedYields_progress h1 hc
+  exact claimBoostedYields_same_week h2 (hweek.trans hW) (fun p hq => hp p (hprog ▸ hq))
+
+/-- 7. the boosted claim reads the user's farm position only through `userTotal u` -/
+theorem claimBoostedYields_userTotal (s : St) (u : Nat) (t : Nat → Nat) (ht : t u = s.userTotal u) :
+    claimBoostedYields { s with userTotal := t } u =
+      (claimBoostedYields s u).map (fun r => ({ r.1 with userTotal := t }, r.2)) := by
+  unfold claimBoostedYields
+  cases hc : s.b.cfg with
+  | none => simp only [Option.map_some]
+  | some cfg =>
+    simp only [St.week, ht]
+    cases Weekly.weekOf s.epoch s.firstWeekStart with
+    | none => rfl
+    | some W =>
+      simp only [Option.bind_eq_bind, Option.bind_some]
+      cases cfg.update W none with
+      | none => rfl
+      | some mem =>
+        simp only [Option.bind_some]
+        cases Weekly.claimMulti (boostedRewards mem (s.userTotal u)) s.w s.b u W
+            (Energy.queried (s.energy u) s.epoch) with
+        | none => rfl
+        | some x => rfl
+
 end Mx.Farm
